@@ -833,7 +833,7 @@ func driveArshal(args map[string]string) error {
 		id := 0
 		runtime.LockOSThread() // one goroutine on one thread: the pooled encoder it puts back is the one it gets next
 		for L := int(seed) % step; L <= maxpad; L += step {
-			for vi, on := range []string{"default", "multiline"} {
+			for vi, on := range []string{"default", "multiline", "deterministic"} {
 				for rep := 0; rep < 3; rep++ {
 					id++
 					c := arshalCase{ID: id, Prop: argStr(args, "prop", "C07"), Kind: "sweep", Seed: []uint64{uint64(L), uint64((L/step)*7 + vi*3 + rep*5)}, Opts: arshalOpts{Name: on}}
@@ -1064,10 +1064,18 @@ func c14Exec(c *arshalCase) {
 		c.Texts = append(c.Texts, ints(tx))
 	}
 	c.Texts = append(c.Texts, ints(merged))
+	// the same law under options that only spell out the defaults
+	var o14 []jsonv2.Options
+	switch c.Seed[1] % 4 {
+	case 1:
+		o14 = []jsonv2.Options{jsonv2.DefaultOptionsV2()}
+	case 2:
+		o14 = arshalOpts{Name: "allfalse"}.options(nil)
+	}
 	chain := reflect.New(t)
 	chainOK := true
 	for i, tx := range texts {
-		err := jsonv2.Unmarshal(tx, chain.Interface())
+		err := jsonv2.Unmarshal(tx, chain.Interface(), o14...)
 		c.Outs = append(c.Outs, okBytes(fmt.Sprintf("chain%d", i+1), nil, err))
 		if err != nil {
 			chainOK = false
@@ -1076,7 +1084,7 @@ func c14Exec(c *arshalCase) {
 		}
 	}
 	single := reflect.New(t)
-	errS := jsonv2.Unmarshal(merged, single.Interface())
+	errS := jsonv2.Unmarshal(merged, single.Interface(), o14...)
 	c.Outs = append(c.Outs, okBytes("single", nil, errS))
 	c.Flags = []bool{chainOK, errS == nil, chainOK && errS == nil && equalNorm(chain.Elem(), single.Elem())}
 	if chainOK && errS == nil && !c.Flags[2] {
@@ -1335,6 +1343,7 @@ type sweepT struct {
 	N    *int            `json:",omitempty"`
 	E    struct{}        `json:",omitempty"`
 	IN   any             `json:",omitempty"`
+	FM   map[float64]int // keys that are written, taken back and sorted under Deterministic
 	Keep []int           `json:",omitempty"`
 	Tail int
 }
@@ -1358,7 +1367,8 @@ func c07SweepExec(c *arshalCase) {
 	variant := int(c.Seed[1])
 	empty, emptyStr, emptyMap := []int{}, "", map[string]int{}
 	v := sweepT{Pad: strings.Repeat("x", L), P: &empty, Q: &[0]int{}, I: []int{}, M: &emptyMap, S: &emptyStr, Tail: 7,
-		NN: new(*int), IN: (*int)(nil)} // null behind a non-nil pointer / inside a non-nil interface
+		NN: new(*int), IN: (*int)(nil), // null behind a non-nil pointer / inside a non-nil interface
+		FM: map[float64]int{1.5: 1, -2.25: 2, 1e21: 3}}
 	switch variant % 4 {
 	case 1:
 		v.I = map[string]any{}
